@@ -17,35 +17,36 @@ import (
 
 // driver directory (under /verif/drivers) -> package directory in the repository
 var driverPkg = map[string]string{
-	"kit":         "internal/verifkit",
-	"lib":         "pkg/station/lib",
-	"app":         "cmd/application",
-	"liveness":    "pkg/station/liveness",
-	"phantoms":    "pkg/phantoms",
-	"regproc":     "pkg/regserver/regprocessor",
-	"apireg":      "pkg/regserver/apiregserver",
-	"dnsreg":      "pkg/regserver/dnsregserver",
-	"dtls":        "pkg/dtls",
-	"assets":      "pkg/client/assets",
-	"transports":  "pkg/transports",
-	"msgformat":   "pkg/registrars/dns-registrar/msgformat",
-	"dns":         "pkg/registrars/dns-registrar/dns",
-	"requester":   "pkg/registrars/dns-registrar/requester",
-	"responder":   "pkg/registrars/dns-registrar/responder",
-	"encryption":  "pkg/registrars/dns-registrar/encryption",
-	"min":         "pkg/transports/wrapping/min",
-	"prefix":      "pkg/transports/wrapping/prefix",
-	"obfs4":       "pkg/transports/wrapping/obfs4",
-	"cdtls":       "pkg/transports/connecting/dtls",
-	"internal":    "internal",
-	"overrides":   "pkg/regserver/overrides",
-	"export/lib":  "pkg/station/lib",
-	"export/cdtls": "pkg/transports/connecting/dtls",
-	"export/prefix": "pkg/transports/wrapping/prefix",
-	"export/obfs4": "pkg/transports/wrapping/obfs4",
-	"export/regproc": "pkg/regserver/regprocessor",
+	"kit":             "internal/verifkit",
+	"lib":             "pkg/station/lib",
+	"app":             "cmd/application",
+	"liveness":        "pkg/station/liveness",
+	"phantoms":        "pkg/phantoms",
+	"regproc":         "pkg/regserver/regprocessor",
+	"regserver":       "cmd/registration-server",
+	"apireg":          "pkg/regserver/apiregserver",
+	"dnsreg":          "pkg/regserver/dnsregserver",
+	"dtls":            "pkg/dtls",
+	"assets":          "pkg/client/assets",
+	"transports":      "pkg/transports",
+	"msgformat":       "pkg/registrars/dns-registrar/msgformat",
+	"dns":             "pkg/registrars/dns-registrar/dns",
+	"requester":       "pkg/registrars/dns-registrar/requester",
+	"responder":       "pkg/registrars/dns-registrar/responder",
+	"encryption":      "pkg/registrars/dns-registrar/encryption",
+	"min":             "pkg/transports/wrapping/min",
+	"prefix":          "pkg/transports/wrapping/prefix",
+	"obfs4":           "pkg/transports/wrapping/obfs4",
+	"cdtls":           "pkg/transports/connecting/dtls",
+	"internal":        "internal",
+	"overrides":       "pkg/regserver/overrides",
+	"export/lib":      "pkg/station/lib",
+	"export/cdtls":    "pkg/transports/connecting/dtls",
+	"export/prefix":   "pkg/transports/wrapping/prefix",
+	"export/obfs4":    "pkg/transports/wrapping/obfs4",
+	"export/regproc":  "pkg/regserver/regprocessor",
 	"export/phantoms": "pkg/phantoms",
-	"export/dtls": "pkg/dtls",
+	"export/dtls":     "pkg/dtls",
 }
 
 // Stage is one child-process run of a driver.
@@ -67,9 +68,9 @@ type Stage struct {
 	HangIsViol   bool // a test-binary timeout is a violation of this property (else: infrastructure error)
 	CrashIsViol  bool // a panic in the child is a violation (default true via props init)
 	NoCrashViol  bool
-	RaceFilter   func(r RaceReport) bool // which race reports are attributed to the property (nil = all)
+	RaceFilter   func(r RaceReport) bool   // which race reports are attributed to the property (nil = all)
 	RaceSig      func(r RaceReport) string // optional canonical signature for a family of reports ("" = default pair key)
-	Repeat       int                     // run the binary this many times (quick), RepeatT (thorough)
+	Repeat       int                       // run the binary this many times (quick), RepeatT (thorough)
 	RepeatT      int
 	Parallel     int // -test.parallel
 	Args         []string
